@@ -205,6 +205,8 @@ def valued(form, value, unit=None):
 
 
 CONTEXTS = 4
+# (copy 1, a different value, copy 2): in code-point order the middle one lies between the two copies, ignoring case it does not
+VALUE_CASE_TRIPLES = (("ABC", "Abd", "abc"), ("Run", "Stop", "run"))
 
 
 def in_context(text, i, c1, c2):
@@ -356,11 +358,16 @@ def special_templates(model, defs, node, form):
     has_top = {n.name for n in model.nodes if n.has("topLevelTagGroup")}
     if name == "Def":
         good += [form + "/" + DEF_PLAIN, "(" + form + "/" + DEF_PLAIN + "," + a + ")", form + "/" + DEF_VALUE + "/3"]
-        bad += [(form, "child")]
+        bad += [(form, "child"), (form + "/Cundeclared", "def"), ("(Square,%s/%s/3)" % (form, DEF_PLAIN), "def"),
+                ("Square,(%s/%s)" % (form, DEF_VALUE), "def"),
+                ("%s/%s,Square,%s/%s" % (form, DEF_PLAIN, "Def", DEF_PLAIN), "repeat"),
+                ("(DEF/%s,(Square),%s/%s)" % (DEF_PLAIN, form, DEF_PLAIN), "repeat")]
     elif name == "Def-expand":
         body = "%s/%s,(%s,%s)" % (form, DEF_PLAIN, a, b)
         good += ["(" + body + ")", "Green,((" + body + "),Square)"]
-        bad += [(body, "group"), ("(" + form + ",(" + a + "))", "child")]
+        bad += [(body, "group"), ("(" + form + ",(" + a + "))", "child"),
+                ("(%s/Cundeclared,(%s,%s))" % (form, a, b), "defexpand"), ("(%s/%s,(%s,Ellipse))" % (form, DEF_PLAIN, a), "defexpand"),
+                ("Square,((%s/%s/3,(%s,%s)))" % (form, DEF_PLAIN, a, b), "defexpand")]
     elif name == "Definition":
         # definitions are not allowed in annotations that are validated as event strings
         bad += [("(" + form + "/Cnewdef,(" + a + "))", "definition"), ("((" + form + "/Cnewdef,(" + a + ")))", "definition"),
@@ -385,7 +392,11 @@ def special_templates(model, defs, node, form):
     elif name == "Event-context":
         good += ["(%s,%s)" % (form, a), "(%s,(%s),%s)" % (form, a, b), "%s,(%s,%s)" % (a, b, form)]
         bad += [("%s,%s" % (form, a), "group"), ("((%s,%s))" % (form, a), "group"),
-                ("(%s,%s),(%s,%s)" % (form, a, form, b), "unique")]
+                ("(%s,%s),(%s,%s)" % (form, a, form, b), "unique"),
+                # the second copy in another spelling, with siblings between the two
+                ("(%s,%s),Square,(Circle),(Event-context,%s)" % (form, a, b), "unique"),
+                ("(EVENT-CONTEXT,%s),(Square,(Circle)),(%s,%s)" % (b, form, a), "unique"),
+                ("(%s,%s),(Organizational-property/Event-context,%s)" % (form, a, b), "unique")]
     else:
         return None
     return good, bad
@@ -421,7 +432,8 @@ def part_vocabulary(w, run, model, vocab, defs, chunk=0, nchunks=1):
                     run.valid(t)
                 temporal = node.name in ("Onset", "Offset", "Inset", "Duration", "Delay")
                 for t, rule in bad:
-                    cl = {"group": CL_GROUP, "child": CL_CHILD, "unique": CL_UNIQUE, "definition": CL_GROUP}[rule]
+                    cl = {"group": CL_GROUP, "child": CL_CHILD, "unique": CL_UNIQUE, "definition": CL_GROUP, "def": CL_DEF,
+                          "defexpand": CL_DEFX, "repeat": CL_REPEAT}[rule]
                     # a misplaced temporal tag is also a TEMPORAL_TAG_ERROR by the specification
                     run.invalid(t, rule, cl, also="temporal" if (temporal and rule == "group") else None)
                 continue
@@ -496,6 +508,33 @@ def part_vocabulary(w, run, model, vocab, defs, chunk=0, nchunks=1):
                 pos = 1 + (idx % max(1, len(first) - 1)) if len(first) > 1 else 1
                 ch = "$%@!&="[idx % 6]
                 run.invalid(in_context(sp[:pos] + ch + sp[pos:], idx, ctx_c1, ctx_c2), "char", CL_CHAR)
+            # ---- repeated with values / extensions that differ in letter case only, next to a sibling whose text lies
+            #      between the two copies in code-point order (tag equality ignores letter case everywhere)
+            lettered = node.takes_value and not node.unit_classes and \
+                all(vc in ("nameClass", "textClass", "labelClass") for vc in node.value_classes)
+            if lettered or (not node.takes_value and node.ext_allowed and si == 0):
+                other = forms[(si + 1) % len(forms)] if si < len(forms) else forms[0]
+                for ti, (v1, mid, v2) in enumerate(VALUE_CASE_TRIPLES):
+                    if not lettered:
+                        v1, mid, v2 = "Qx" + v1, "Qx" + mid, "Qx" + v2      # extension names that are no schema terms
+                    t1, tm, t2 = sp + "/" + v1, node.name + "/" + mid, other + "/" + v2
+                    perms = [(t1, tm, t2), (t1, t2, tm), (tm, t1, t2), (tm, t2, t1), (t2, t1, tm), (t2, tm, t1)]
+                    if not lettered or quick:
+                        perms = [perms[(idx + ti + k) % 6] for k in range(3)]
+                    for pi, perm in enumerate(perms):
+                        k = (idx + pi + ti) % 5
+                        if k == 0:
+                            txt = ",".join(perm)
+                        elif k == 1:
+                            txt = "(" + ",".join(perm) + ")," + ctx_c1
+                        elif k == 2:
+                            txt = "(%s,%s,%s,%s)" % (perm[0], perm[1], ctx_c1, perm[2])
+                        elif k == 3:
+                            txt = "%s,((%s,%s,(%s),%s))" % (ctx_c1, perm[0], perm[1], ctx_c2, perm[2])
+                        else:       # the copies as members of repeated groups
+                            txt = "(%s,%s),(%s,%s),(%s,%s)" % (ctx_c1, perm[0], perm[1], ctx_c1, ctx_c1, perm[2])
+                        run.invalid(txt, "repeat", CL_REPEAT)
+                    run.invalid(t1 + "," + t2 if idx % 2 else "(" + t2 + "," + ctx_c1 + "," + t1 + ")", "repeat", CL_REPEAT)
             # ---- repeated in another spelling ----------------------------------------------------------
             if not node.takes_value and not node.has("requireChild"):
                 other = spellings[(si + 1) % len(spellings)]
@@ -621,6 +660,39 @@ def d2_model_count(tree, text_of=None):
     return scan(ps(tree))
 
 
+def respellings(model, atom):
+    """other writings of the same tag: full path, upper-case name, and -- for a lettered value or an extension -- the value
+    in swapped case.  Registers their short form in SHORT_OF (used by the D2 labelling model)."""
+    if atom in SHORT_OF and "/" not in SHORT_OF[atom]:
+        node, rest, name = model.node(SHORT_OF[atom]), "", atom
+    else:
+        name, slash, rest = atom.partition("/")
+        if name.casefold() not in model.all_names:
+            return []
+        node, rest = model.node(name), slash + rest
+    short = node.name + rest
+    out = [node.long + rest, name.upper() + rest]
+    if rest and name != "Def" and not node.unit_classes and rest[1:2].isalpha():
+        out.append(node.name + rest.swapcase())
+    out = [o for o in out if o != atom]
+    for o in out:
+        SHORT_OF[o] = short
+    return out
+
+
+def respelled_group(model, group, k):
+    """copy of a group in which every tag is written in another spelling (rotating choice)"""
+    out = []
+    for x in group:
+        if isinstance(x, list):
+            out.append(respelled_group(model, x, k + 1))
+        else:
+            alts = respellings(model, x)
+            out.append(alts[k % len(alts)] if alts else x)
+            k += 1
+    return out
+
+
 def build_atoms(model, vocab, defs, rng, quick):
     m = model
     pool_plain = [n for n in vocab.plain_nodes if not n.takes_value and n.name not in defs["plain"]
@@ -713,6 +785,7 @@ def part_grammar(w, run, model, vocab, defs, chunk=0, nchunks=1):
         shapes += forests(n, max_d)
     bi = 0
     ci = 0
+    ri = 0
     free_atoms = [x for x in atoms if x not in ("Green", "Triangle")]
     for si, shape in enumerate(shapes):
         if si % nchunks != chunk:
@@ -754,16 +827,19 @@ def part_grammar(w, run, model, vocab, defs, chunk=0, nchunks=1):
                     continue
                 for i, x in enumerate(lst):
                     if isinstance(x, str) and not _is_special_member(x):
+                        copies = [x] + respellings(model, x)
                         for p in range(len(lst) + 1):
                             if quick and (p + bi) % 2:
                                 continue
-                            run.invalid(render(replace_in(tree, lst, lst[:p] + [x] + lst[p:])), "repeat", CL_REPEAT)
+                            ri += 1
+                            run.invalid(render(replace_in(tree, lst, lst[:p] + [copies[ri % len(copies)]] + lst[p:])),
+                                        "repeat", CL_REPEAT)
                     elif isinstance(x, list) and not _is_special_group(x):
                         # repeated group, members in every order (reversed / rotated), at every sibling position
                         variants = [list(x), list(reversed(x))] + ([x[1:] + x[:1]] if len(x) > 2 else [])
+                        ri += 1
+                        variants.append(respelled_group(model, list(reversed(x)), ri))     # other spellings, other order
                         for vi, var in enumerate(variants):
-                            if vi and canon(var) != canon(x):
-                                continue
                             for p in range(len(lst) + 1):
                                 mutated = replace_in(tree, lst, lst[:p] + [var] + lst[p:])
                                 cl = CL_REPEAT if d2_model_count(mutated) else CL_REPEAT_D2
@@ -788,9 +864,10 @@ def part_grammar(w, run, model, vocab, defs, chunk=0, nchunks=1):
                             run.invalid(render(replace_in(tree, lst, lst[:i] + [[grp]] + lst[i + 1:])), "group", CL_GROUP, also=twin)
                             run.invalid(render(replace_in(tree, lst, lst[:i] + list(grp) + lst[i + 1:])), "group", CL_GROUP, also=twin)
                             if kind == "event-context":
-                                dup = ["Event-context", "Ellipse"]
-                                for p in (0, len(lst)):
-                                    run.invalid(render(replace_in(tree, lst, lst[:p] + [dup] + lst[p:])), "unique", CL_UNIQUE)
+                                for name in ("Event-context", "EVENT-CONTEXT", "Property/Organizational-property/Event-context"):
+                                    dup = ["Ellipse", name]
+                                    for p in (0, len(lst)):
+                                        run.invalid(render(replace_in(tree, lst, lst[:p] + [dup] + lst[p:])), "unique", CL_UNIQUE)
                         else:
                             if depth == 0:
                                 run.invalid(render(replace_in(tree, lst, lst[:i] + list(grp) + lst[i + 1:])), "group", CL_GROUP)
@@ -972,8 +1049,14 @@ def part_witness(w, run, model, vocab, defs):
         run.invalid(t, "parens", CL_PARENS)
     for t in ("()", "Red,()", "(),()", "Red,(),()", "(Red,(),())", "Red,,Blue", ",Red", "Red,", "(Red,)", "(,Red)"):
         run.invalid(t, "empty", CL_EMPTY)
-    for t in ("Red(Blue)", "(Red)Blue", "(Red)(Blue)"):
+    for t in ("Red(Blue)", "(Red)Blue", "(Red)(Blue)", "Red (Blue)", "(Red) Blue", "(Red) (Blue)"):
         run.invalid(t, "comma", CL_EMPTY)
+    for t in ("Red, ,Blue", "(Red, ,Blue), Square", " ,Red", "Red, ", "(Red, ( ,Blue, Square))", "( )", "Red,( )", "(Red, )"):
+        run.invalid(t, "empty", CL_EMPTY)
+    for t in ("Label/ABC, Label/Abd, Label/abc", "(Label/Run, Label/Stop, Red, Label/run)", "Label/abc,Label/Abd,Label/ABC",
+              "Label/abc,Informational-property/Label/ABC", "Red/QxABC,Red/QxAbd,Red-color/Red/Qxabc",
+              "(Red,Label/ABC),(Red,Label/Abd),(Label/abc,Red)"):
+        run.invalid(t, "repeat", CL_REPEAT)
     run.invalid("(Red,Blue),(Green),(Blue,Red)", "repeat", CL_REPEAT_D2)
     run.invalid("((Red),(Blue)),((Green)),((Blue),(Red))", "repeat", CL_REPEAT_D2)
     for t in ("(Red,Blue),(Blue,Red)", "(Red,Blue),(Green),(Red,Blue)", "(Blue,Red),(Green),(Blue,Red)", "Red,(Green),Red",
